@@ -107,6 +107,8 @@ func init() {
 			allowGotextPreserved = true
 		case "firstletter":
 			allowFirstLetter = true
+		case "nopagecounters":
+			pcPercent = 0
 		}
 	}
 }
